@@ -82,7 +82,7 @@ def sec_nms(draw):
     dets = []
     for _ in range(n):
         dets.append({"box": {"ctor": "new", "xc": f32(cx + draw(fl(-30, 30))), "yc": f32(cy + draw(fl(-30, 30))), "angle": draw(st.one_of(st.none(), fl(-1.0, 1.0))), "aspect": draw(fl(0.5, 2.0)), "height": draw(fl(10, 60)), "confidence": 1.0},
-                     "score": draw(st.one_of(st.none(), fl(0.05, 0.95)))})
+                     "score": draw(st.one_of(st.none(), fl(0.05, 0.95), st.sampled_from([0.0, -0.5, -2.0])))})
     return {"kind": "nms", "dets": dets, "nms_threshold": draw(fl(0.1, 0.9)), "score_threshold": draw(st.one_of(st.none(), fl(0.0, 0.9)))}
 
 
